@@ -19,6 +19,8 @@ RULE = ("cases = (a) method-settings lists with exactly one AIP-4235 violation e
 ASSUMPTIONS = ["UUID randomness is not judged beyond pairwise distinctness and version/variant nibbles"]
 CASE_TIMEOUT = 300
 PARALLEL = 12
+IDS = ["request_id", "opt_request_id", "third_id"]
+PRESENCE = {"opt_request_id"}
 UUID4 = re.compile(r"^[0-9a-f]{8}-[0-9a-f]{4}-4[0-9a-f]{3}-[89ab][0-9a-f]{3}-[0-9a-f]{12}$")
 
 
@@ -77,7 +79,7 @@ def run_case(case):
                     if form == "omitted":
                         x = model.new(m.input_type)     # the caller passes nothing at all
                     caller = {}
-                    for fname in ["request_id", "opt_request_id", "third_id"]:
+                    for fname in IDS:
                         st = state if state != "mixed" else rng.choice(["unset", "empty", "caller"])
                         if st == "empty":
                             setattr(x, fname, "")
@@ -94,8 +96,9 @@ def run_case(case):
                     if form == "dict":
                         d = rdm.to_py(x)
                         # explicit empty on the optional field must survive the dict form too
-                        if caller["opt_request_id"] == "empty":
-                            d["opt_request_id"] = ""
+                        for pf in PRESENCE:
+                            if caller[pf] == "empty":
+                                d[pf] = ""
                         call["dict"] = d
                     calls.append(call)
     script = {"root_pkg": apigen.lib_root(api.info, api.options), "calls": calls}
@@ -133,9 +136,9 @@ def run_case(case):
             got = model.parse(call["req_type"], rdm.unb64(r["event"]["requests"][0]))
         if not call["fields"]:
             bump("unlisted_method_calls")
-        for fname in ["request_id", "opt_request_id", "third_id"]:
+        for fname in IDS:
             st = call["state"][fname]
-            has_presence = fname == "opt_request_id"
+            has_presence = fname in PRESENCE
             listed = fname in call["fields"]
             val = getattr(got, fname)
             if has_presence and st == "empty":
@@ -164,7 +167,7 @@ def run_case(case):
         a, b = model.new(call["req_type"]), model.new(call["req_type"])
         a.CopyFrom(got)
         b.CopyFrom(sent)
-        for fname in ["request_id", "opt_request_id", "third_id"]:
+        for fname in IDS:
             a.ClearField(fname)
             b.ClearField(fname)
         if a != b:
